@@ -1,8 +1,8 @@
-(* C07 — a backtest visits every dataset date exactly once, in order, then stops. Statements only; for EVERY exchange (the server model is generic in it) and the defect-free valuation. *)
+(* C07 — a backtest visits every dataset date exactly once, in order, then stops. Statements only; for EVERY exchange (the server model is generic in it) and the defect-free valuation. The datasets the clock walks are those Penelope::add_quote builds (Model/Penelope.v): c07_dataset_* prove, for every loading script, the facts about datasets that the clock theorems and C01/C11 take as premises. *)
 From Coq Require Import ZArith NArith List Bool String Permutation Sorted Floats.
 From Alator Require Import Model.Num Model.Quirks Model.Exchange Model.Uist Model.Jura Model.Server
   Proofs.ListAux Proofs.ExchangeProofs Proofs.UistProofs Proofs.JuraProofs Proofs.ExchangeCorollaries
-  Proofs.ServerProofs.
+  Proofs.ServerProofs Model.Penelope Proofs.PenelopeProofs.
 Import ListNotations.
 Local Open Scope num_scope.
 
@@ -131,6 +131,43 @@ Theorem c07_loop_terminates :
              done = Some (s', (done + (Datatypes.length (ds_dates d) - k))%nat).
 Proof. exact @client_loop_terminates. Qed.
 
+(* Dataset: whatever the order and repetition in which quotes are added, the dates a backtest walks are the DISTINCT dates of the loading script in order of first appearance — no date twice. *)
+Theorem c07_dataset_dates :
+  forall (F : Type) (calls : list (F * F * Z * string)),
+         ds_dates (load calls) = rev (nodup Z.eq_dec (rev (map c_date calls))).
+Proof. exact @load_dates. Qed.
+
+(* Dataset: a script whose dates never go back (any number of symbols per date, quotes re-added at will) yields strictly increasing dates d1 < ... < dN. *)
+Theorem c07_dataset_dates_increasing :
+  forall (F : Type) (calls : list (F * F * Z * string)),
+         StronglySorted Z.le (map c_date calls) -> StronglySorted Z.lt (ds_dates (load calls)).
+Proof. exact @load_sorted. Qed.
+
+(* Dataset: dates are pairwise distinct, there is exactly one row per date in the same order, every row is keyed uniquely, non-empty, and each of its quotes carries the row's date and its own symbol. *)
+Theorem c07_dataset_invariant :
+  forall (F : Type) (calls : list (F * F * Z * string)), PInv (load calls).
+Proof. exact @load_inv. Qed.
+
+(* Dataset: every quote a row shows is dated with that row's date and filed under its own symbol (so a client is never shown a quote dated otherwise than the clock). *)
+Theorem c07_dataset_rows_own_date :
+  forall (F : Type) (calls : list (F * F * Z * string)) (date : Z) 
+           (row : prow F) (k : string) (q : quote F),
+         get_quotes (load calls) date = Some row ->
+         In (k, q) row -> q_date q = date /\ q_symbol q = k.
+Proof. exact @load_rows_own_date. Qed.
+
+(* Dataset: a date has a row exactly when it is one of the dataset's dates, so a tick never meets a missing row. *)
+Theorem c07_dataset_row_iff_date :
+  forall (F : Type) (calls : list (F * F * Z * string)) (date : Z),
+         get_quotes (load calls) date <> None <-> In date (ds_dates (load calls)).
+Proof. exact @load_row_iff_date. Qed.
+
+(* Dataset: for every (date, symbol) the quote shown is the LAST one added for that pair, and nothing is shown for a pair never added (specification written independently as a recursion over the script). *)
+Theorem c07_dataset_shows_last_added :
+  forall (F : Type) (calls : list (F * F * Z * string)) (d : Z) (s : string),
+         shown (load calls) d s = last_call calls d s.
+Proof. exact @load_shows_last_call. Qed.
+
 (* Refuted for the Jura service as it was (pos never stored): on a 3-date dataset has_next stays true for ever and the clock parks on the second date (kernel-evaluated witness). *)
 Theorem c07_refuted_q_jura_pos_stuck :
   let qk :=
@@ -179,4 +216,10 @@ Print Assumptions c07_now.
 Print Assumptions c07_fetch_quotes.
 Print Assumptions c07_loop_count.
 Print Assumptions c07_loop_terminates.
+Print Assumptions c07_dataset_dates.
+Print Assumptions c07_dataset_dates_increasing.
+Print Assumptions c07_dataset_invariant.
+Print Assumptions c07_dataset_rows_own_date.
+Print Assumptions c07_dataset_row_iff_date.
+Print Assumptions c07_dataset_shows_last_added.
 Print Assumptions c07_refuted_q_jura_pos_stuck.
